@@ -815,6 +815,10 @@ class SdcConsumer:
             # find better solution, see issue #320
             self._logger.info('Http server started. Serving EventSink on {}', self._http_server.base_url)  # noqa: PLE1205
         else:
+            if self.is_ssl_connection and not str(shared_http_server.base_url).lower().startswith('https'):
+                # NotifyTo / EndTo addresses are derived from the server: they would be plain http addresses
+                msg = 'tls is enforced, but the shared http server does not use tls'
+                raise ValueError(msg)
             self._http_server = shared_http_server
         # register own epr in http server
         self._http_server.dispatcher.register_instance(self.path_prefix, self._msg_converter)
